@@ -24,7 +24,7 @@ EXPLANATION = (
     "terminal-property change."
     " Added after seed round 3: _last_row's back-step is the width of the text written last (calc_width of the Z text); `self._resized` is tested again between the walk over canvas.content() and the write / screen_buf store; (9) ACCUM - the row counter of draw_screen advances for skipped rows too; (10) KIND - in the HTML back-end everything added to / compared with the cursor column is a calc_width() result, never a character count."
     " Round 4: the 'same canvas object as last time' shortcut of draw_screen reads screen_buf (which clear(), resize and stop reset); (11) LOOPFRESH on per-row state of the two draw_screen implementations."
-    " Round-4 triage: (12) the erase-to-end-of-line shortcut is disabled for every style flag _attrspec_to_escape() emits that is drawn on blank cells (all but bold / italics / blink)."
+    " Round-4 triage: (12) the erase-to-end-of-line shortcut is disabled for every style flag _attrspec_to_escape() emits that is drawn on blank cells (all but bold / italics / blink). Round 5: (13) every value given to draw_screen's model of the terminal's rendition is sent on every path to its next use."
 )
 NOT_DECIDED = "The effect of the escape stream on a terminal across frame histories, the erase-to-end-of-line and insert-mode equivalences, no-scroll - these need a terminal interpreter, i.e. execution."
 ASSUMPTIONS = []
@@ -451,6 +451,47 @@ def rule_erase_shortcut(ctx: Ctx) -> RuleResult:
     return rr
 
 
+def rule_rendition_model(ctx: Ctx, clause: str = "C04.13") -> RuleResult:
+    """draw_screen() keeps a local model of the terminal's current rendition (`last_attributes`): an SGR sequence
+    is sent only when the next run's attribute differs from the model.  The model is only right if every value it
+    is given was actually sent: each assignment `model = X` comes with an unconditional emission of
+    attr_to_escape(X) - in the same statement sequence for the per-run update, and before the row loop for the
+    initial value.  An initial value that is assumed but sent only on some paths (only on a full repaint) leaves
+    the terminal in whatever rendition the previous frame ended with: the first default-attribute run of the next
+    incremental frame is painted with a neighbour's colours."""
+    p = ctx.p
+    rr = RuleResult("PAIR", clause, "every value given to draw_screen's model of the terminal's rendition is also sent (attr_to_escape) on every path to the next use", floor=2)
+    fi = p.func(f"{RAW}.Screen.draw_screen")
+    cfg = cfg_of(fi)
+    # the model, by role: the local compared (!=) with the run attribute right before attr_to_escape() of that attribute
+    models = set()
+    for t in cfg.nodes:
+        if t.kind == "test" and isinstance(t.ast, ast.Compare) and len(t.ast.ops) == 1 and isinstance(t.ast.ops[0], ast.NotEq) and isinstance(t.ast.left, ast.Name) and isinstance(t.ast.comparators[0], ast.Name):
+            body = t.stmt.body if isinstance(t.stmt, ast.If) else []
+            if any(isinstance(c, ast.Call) and isinstance(c.func, ast.Name) and c.func.id == "attr_to_escape" for b in body for c in ast.walk(b)):
+                models.add(t.ast.left.id)
+    if not models:
+        raise AnalysisError("draw_screen: the rendition model (`if last_attributes != a: output.append(attr_to_escape(a))`) was not found")
+    uses = [t for t in cfg.nodes if t.kind == "test" and isinstance(t.ast, ast.Compare) and isinstance(t.ast.left, ast.Name) and t.ast.left.id in models]
+    for m in sorted(models):
+        for d in [n for n in cfg.nodes if isinstance(n.ast, ast.Assign) and any(isinstance(x, ast.Name) and x.id == m for x in n.ast.targets)]:
+            val = ast.unparse(d.ast.value)
+            emits = [n for n in cfg.nodes if n.ast is not None and n.kind not in ("for", "with", "handler", "test") and any(isinstance(c, ast.Call) and isinstance(c.func, ast.Name) and c.func.id == "attr_to_escape" and c.args and ast.unparse(c.args[0]) in (m, val) for c in ast.walk(n.ast))]
+            # sent before the assignment (same branch) or on every path from it to the next comparison with the model
+            before = [e for e in emits if cfg.dominated(d, [e]) and not any(d in cfg.reachable([x]) and x in cfg.reachable([e]) for x in uses if x is not d) ]
+            ok = False
+            if any(cfg.dominated(d, [e]) for e in emits) and isinstance(d.ast.value, ast.Name):
+                # per-run update: `output.append(attr_to_escape(a)); last_attributes = a` under the same test
+                ok = any(cfg.dominated(d, [e]) and ast.unparse(c.args[0]) == val for e in emits for c in ast.walk(e.ast) if isinstance(c, ast.Call) and isinstance(c.func, ast.Name) and c.func.id == "attr_to_escape" and c.args)
+            if not ok:
+                r = cfg.reachable([d], avoid=emits, labels=("n", "T", "F"))
+                ok = bool(emits) and not any(u in r for u in uses)
+            rr.inst(f"{m} = {val}", True, {"model": m, "assignment": norm(d.stmt, 50), "sent_on_every_path": ok})
+            if not ok:
+                rr.add(finding("PAIR", fi, d.stmt, f"`{norm(d.stmt, 50)}` gives the model of the terminal's rendition a value that is not sent with attr_to_escape() on every path to the next comparison with it: on an incremental frame the terminal is still in the rendition of the last run of the previous frame, the model says `{val}`, and the first run with that attribute is painted without an SGR sequence - in a neighbouring run's colours", construct=f"rendition model {m} = {val} not always sent"))
+    return rr
+
+
 def run(ctx: Ctx):
     r6 = c17.rule_palette_cache(ctx, "C04.6")
     r7 = c17.rule_palette_total(ctx, "C04.7")
@@ -458,12 +499,13 @@ def run(ctx: Ctx):
     r8.clause = "C04.8"
     r9 = accum.run_accum(ctx.p, "C04.9", "C04", floor=1)
     r11 = loopfresh.run_loopfresh(ctx.p, "C04.11", "C04", floor=3)
-    return [rule_triple(ctx), rule_last_row_triple(ctx), rule_cursor(ctx), rule_repaint(ctx), rule_charset_first(ctx), rule_html(ctx), rule_html_cursor_columns(ctx), r6, r7, r8, r9, r11, rule_erase_shortcut(ctx)]
+    return [rule_triple(ctx), rule_last_row_triple(ctx), rule_cursor(ctx), rule_repaint(ctx), rule_charset_first(ctx), rule_html(ctx), rule_html_cursor_columns(ctx), r6, r7, r8, r9, r11, rule_erase_shortcut(ctx), rule_rendition_model(ctx)]
 
 
 _RW = "urwid/display/_raw_display_base.py"
 _HT = "urwid/display/html_fragment.py"
 MUTANTS = [
+    Mut("initial-rendition-only-on-full-repaint", _RW, "urwid.display._raw_display_base.Screen.draw_screen", "        output: list[str] = [escape.HIDE_CURSOR, attr_to_escape(last_attributes)]\n", "        output: list[str] = [escape.HIDE_CURSOR]\n        if not self.screen_buf:\n            output.append(attr_to_escape(last_attributes))\n", "PAIR|display._raw_display_base.Screen.draw_screen|rendition model"),
     Mut("erase-shortcut-with-strikethrough", _RW, "urwid.display._raw_display_base.Screen.draw_screen", "(a.standout or a.underline or a.strikethrough)", "(a.standout or a.underline)", "TAB|display._raw_display_base.Screen.draw_screen|erase shortcut not disabled for strikethrough"),
     Mut("twin-erase-shortcut-any-form", _RW, "urwid.display._raw_display_base.Screen.draw_screen", "(a.standout or a.underline or a.strikethrough)", "any((a.strikethrough, a.underline, a.standout))", twin=True),
     Mut("cursor-row-only-with-cursor", _RW, "urwid.display._raw_display_base.Screen.draw_screen", "            self._cy = y\n        else:\n            # without a cursor the terminal stays on the row painted last\n            self._cy = cy\n", "            self._cy = y\n", "INV|display._raw_display_base.Screen.draw_screen|_cy not recorded"),
